@@ -73,6 +73,13 @@ var c16IDSets = [][]quickfix.SessionID{
 	{{BeginString: "FIX.4.2", SenderCompID: "SND", TargetCompID: "TGT"}, {BeginString: "FIX.4.2", SenderCompID: "TGT", TargetCompID: "SND"}},
 	{{BeginString: "FIX.4.4", SenderCompID: "A", TargetCompID: "B", SenderSubID: "S1", TargetLocationID: "L"}, {BeginString: "FIX.4.4", SenderCompID: "A", TargetCompID: "B", SenderSubID: "S1", TargetLocationID: "L", Qualifier: "Q2"}},
 	{{BeginString: "FIX.4.2", SenderCompID: "A", TargetCompID: "B", SenderSubID: "S"}, {BeginString: "FIX.4.2", SenderCompID: "A", TargetCompID: "B", SenderLocationID: "S"}},
+	// two identities that differ in exactly one field, for each field
+	{{BeginString: "FIX.4.4", SenderCompID: "A", TargetCompID: "B", SenderSubID: "S1", SenderLocationID: "L1", TargetSubID: "T1", TargetLocationID: "NY"}, {BeginString: "FIX.4.4", SenderCompID: "A", TargetCompID: "B", SenderSubID: "S1", SenderLocationID: "L1", TargetSubID: "T1", TargetLocationID: "LDN"}},
+	{{BeginString: "FIX.4.4", SenderCompID: "A", TargetCompID: "B", SenderSubID: "S1", SenderLocationID: "L1", TargetSubID: "T1", TargetLocationID: "NY"}, {BeginString: "FIX.4.4", SenderCompID: "A", TargetCompID: "B", SenderSubID: "S1", SenderLocationID: "L1", TargetSubID: "T2", TargetLocationID: "NY"}},
+	{{BeginString: "FIX.4.4", SenderCompID: "A", TargetCompID: "B", SenderSubID: "S1", SenderLocationID: "L1", TargetSubID: "T1", TargetLocationID: "NY"}, {BeginString: "FIX.4.4", SenderCompID: "A", TargetCompID: "B", SenderSubID: "S1", SenderLocationID: "L2", TargetSubID: "T1", TargetLocationID: "NY"}},
+	{{BeginString: "FIX.4.4", SenderCompID: "A", TargetCompID: "B", SenderSubID: "S1", SenderLocationID: "L1", TargetSubID: "T1", TargetLocationID: "NY"}, {BeginString: "FIX.4.4", SenderCompID: "A", TargetCompID: "B", SenderSubID: "S2", SenderLocationID: "L1", TargetSubID: "T1", TargetLocationID: "NY"}},
+	{{BeginString: "FIX.4.4", SenderCompID: "A", TargetCompID: "B", SenderSubID: "S1"}, {BeginString: "FIX.4.2", SenderCompID: "A", TargetCompID: "B", SenderSubID: "S1"}},
+	{{BeginString: "FIX.4.4", SenderCompID: "A", TargetCompID: "B"}, {BeginString: "FIX.4.4", SenderCompID: "A", TargetCompID: "C"}},
 }
 
 type c16Backend struct {
@@ -453,7 +460,7 @@ func runC16(c *core.Ctx) {
 		depth = map[string]int{"memory": 5, "file": 5, "file-nosync": 4, "sql": 4}
 		depth2 = 3
 	}
-	c.SetRule("all operation programs up to depth d over {save-and-increment, save, increments, set counters, iterate aborting at the j-th callback, Refresh, Reset, close+reopen} (message bytes rotate through 6 payloads incl. empty, commas/newlines, SOH/NUL/non-UTF-8, 5 kB) on the memory, file (sync on/off) and SQL (sqlite) stores; after every operation counters, creation time and ranges are compared with an abstract store; at the end all ranges, again after Refresh and through a fresh store on the same backing medium; plus two sessions with near-identical IDs interleaved on one directory/database")
+	c.SetRule("all operation programs up to depth d over {save-and-increment, save, increments, set counters, iterate aborting at the j-th callback, Refresh, Reset, close+reopen} (message bytes rotate through 6 payloads incl. empty, commas/newlines, SOH/NUL/non-UTF-8, 5 kB) on the memory, file (sync on/off) and SQL (sqlite) stores; after every operation counters, creation time and ranges are compared with an abstract store; at the end all ranges, again after Refresh and through a fresh store on the same backing medium; plus two sessions with near-identical IDs (differing in exactly one identity field, for each field; differing by the qualifier; the same string as SubID of one and LocationID of the other) interleaved on one directory/database")
 	c.Assume("save numbers ascend within an epoch (a save-and-increment below the highest saved number is skipped)", "creation time is bounded by the wall-clock instants around open/Reset and must then stay Equal",
 		"Mongo store: no server in the sandbox, not executed", "SQL store exercised on sqlite through the repository's own schema files")
 	alpha := c16Alphabet()
